@@ -27,9 +27,14 @@ extern "C" void harness_marks()
     for (int i = 0; i < NST; ++i)
     {
         g_st[i].id = i;
+#ifdef IDXORD
+        // case split over the relative order of the three vertex indices (values 2, 5, 7 in the order given by the digits of IDXORD)
+        idx[i] = (IDXORD >> (4 * i)) & 7;
+#else
         idx[i] = nondet_uchar() & 7;               // arbitrary vertex indices: ANY order relative to the marking order
 #pragma clang loop unroll(full)
         for (int j = 0; j < i; ++j) __CPROVER_assume(idx[i] != idx[j]);
+#endif
     }
     g_st[NST].id = NST;
     // balanced tree: root = state 1, children = states 0 and 2
